@@ -1,6 +1,7 @@
 """Growth beyond the listed properties: spec/JsonCodec.tla bound to measured.json by replaying every transition.
 Run with ./check X-jsoncodec (not part of MANIFEST.json; it writes no evidence file)."""
 import json as _json
+import os
 
 from core import MachineryError, replay_histories, require_ok, require_violation, run_tlc, workdir
 from registry import graph_histories
@@ -57,11 +58,33 @@ class CodecDriver:
         return mm
 
 
+def apalache_inductive():
+    """WellNested for behaviours of ANY length: Apalache checks that IndInv (spec/MC_JsonCodecApa.tla) holds initially,
+    is preserved by every action (symbolic stack up to 8 contexts deep) and implies WellNested; the documented deviation
+    OpenInstallerMeansInstalled must NOT follow from it."""
+    import shutil
+    import subprocess
+    from core import MachineryError, SPEC
+    wd = workdir("apalache_jsoncodec")
+    for f in ("JsonCodec.tla", "MC_JsonCodecApa.tla"):
+        shutil.copy(os.path.join(SPEC, f), wd)
+    runs = (("Init", "IndInv", 0, True), ("IndInit", "IndInv", 1, True), ("IndInit", "WellNested", 0, True), ("IndInit", "OpenInstallerMeansInstalled", 0, False))
+    for init, inv, length, want_ok in runs:
+        p = subprocess.run(["apalache-mc", "check", "--init=" + init, "--inv=" + inv, "--length=%d" % length, "--out-dir=" + os.path.join(wd, "out"),
+                            "MC_JsonCodecApa.tla"], cwd=wd, stdout=subprocess.PIPE, stderr=subprocess.STDOUT, text=True, timeout=900)
+        ok = "EXITCODE: OK" in p.stdout
+        refuted = "EXITCODE: ERROR (12)" in p.stdout
+        if (want_ok and not ok) or (not want_ok and not refuted):
+            raise MachineryError("apalache --init=%s --inv=%s --length=%d: expected %s\n%s" % (init, inv, length, "OK" if want_ok else "a counterexample", p.stdout[-800:]))
+        print("apalache: --init=%-8s --inv=%-28s --length=%d  %s" % (init, inv, length, "holds" if ok else "refuted (as documented)"))
+
+
 def run(tier, seed):
     res = run_tlc("MC_JsonCodec", wd=workdir("tlc_jsoncodec"), workers=2, timeout=600)
     require_ok(res, "MC_JsonCodec")
     exp = run_tlc("MC_JsonCodec", cfg="MC_JsonCodecExpect.cfg", wd=workdir("tlc_jsoncodec_expect"), workers=2, timeout=600)
     require_violation(exp, "OpenInstallerMeansInstalled", "JsonCodec (documented deviation)")
+    apalache_inductive()
     hists, n = graph_histories(res.exports.get("T", []), res.exports.get("I", []))
     rep = replay_histories(hists, CodecDriver(), split_depth=2, label="jsoncodec")
     bad = [m for m in rep["mm"] if m.get("prop") != "OBS"]
